@@ -35,7 +35,7 @@ SLOT = {'get_allowed_max_bandwidth': 'float', 'wants_tables_notification': 'bool
         'get_distinct_snapshot_length': 'int', 'get_allowed_buffer_size': 'int',
         'get_min_source_frequency': 'float', 'get_allowed_max_item_frequency': 'float'}
 
-EXC_CLASSES = c08.LIB + ['RuntimeError', 'ValueError', 'KeyError', 'UserDefined']
+EXC_CLASSES = c08.LIB + ['RuntimeError', 'ValueError', 'KeyError', 'UserDefined', 'UserDefinedEmpty']
 
 
 def right_value(rng, g, slot):
@@ -89,7 +89,7 @@ def gen_case(rng, g, meth, classes, idx):
         name = c[0]
         if raise_at == i:
             cls = rng.choice(EXC_CLASSES)
-            usersub = cls in c08.LIB and rng.random() < 0.2
+            usersub = cls in c08.LIB and rng.choice([False, False, False, False, False, False, False, True, True, 'empty'])
             msg = g.text(allow_none=False)
             code, um, sid = g.integer(), g.text(), g.text()
             # one raise in five carries a non-str detail (an adapter wrapping a caught low-level error)
